@@ -5,7 +5,7 @@
    specification: Conn/ConnSpec.v (RFC state table, written independently). *)
 From Coq Require Import String.
 From PV Require Import Base.Prelude Conn.CmdEntry Conn.CmdTable Conn.ConnFSM Conn.ConnSpec
-  Conn.ConnFSMProofs.
+  Conn.ConnFSMProofs Conn.MultiConn Conn.MultiConnProofs.
 Open Scope string_scope.
 
 (* Acceptance depends only on the state reached.  For EVERY built-in command
@@ -131,6 +131,86 @@ Theorem C05_gate_needs_gated_rows :
     o_cond o = OK /\ c_phase c' = Authd [118]%N.
 Proof. exact (conj ungated_row_not_ok ungated_authenticate_runs). Qed.
 Print Assumptions C05_gate_needs_gated_rows.
+
+(* ---- several connections on one server object (Conn/MultiConn.v) ----
+   "The connection state reached so far" is the state of THIS connection.  In
+   the world model (one slot per connection; shared: the backend and the
+   immutable configuration) the slot of connection i after ANY interleaving
+   with the events of other connections — they may complete STARTTLS, log in,
+   collect BADs, be closed — and every answer written to i are those of the
+   single-connection model [conn_step] run alone over i's own commands, each
+   against the backend state it met.  For every backend, table, configuration
+   and event list (induction over the events). *)
+Theorem C05_conn_independent :
+  forall (B : Type) (bk : B -> bcall -> answer * B) (tbl : list cmd_entry) (scfg : config)
+         (evs : list event) (w : world) (b : B) (i : nat) (loc : bool) (c0 : conn),
+    wlookup i w = Some (loc, c0) ->
+    forallb (fun e => negb (opens i e)) evs = true ->
+    let '(w', _, os) := world_run B bk tbl scfg w b evs in
+    let '(c', outs) := replay B bk tbl (conn_cfg scfg loc) c0
+                              (trace_of B bk tbl scfg i w b evs) in
+    wlookup i w' = Some (loc, c') /\ outs_of i os = outs.
+Proof. exact world_conn_independent. Qed.
+Print Assumptions C05_conn_independent.
+
+(* an event of one connection leaves the slot of every other one untouched *)
+Theorem C05_world_frame :
+  forall (B : Type) (bk : B -> bcall -> answer * B) (tbl : list cmd_entry) (scfg : config)
+         (w : world) (b : B) (e : event) (j : nat),
+    j <> ev_id e -> wlookup j (fst (fst (world_step B bk tbl scfg w b e))) = wlookup j w.
+Proof. exact world_frame. Qed.
+Print Assumptions C05_world_frame.
+
+(* Whatever the server has been through, a client connecting now is in the
+   pristine not-authenticated state ... *)
+Theorem C05_fresh_after_any_history :
+  forall (B : Type) (bk : B -> bcall -> answer * B) (tbl : list cmd_entry) (scfg : config),
+    cf_preauth scfg = None ->
+    forall (evs : list event) (w : world) (b : B) (i : nat) (loc : bool),
+      let '(w1, b1, _) := world_run B bk tbl scfg w b evs in
+      let '(w2, b2, o) := world_step B bk tbl scfg w1 b1 (EOpen i loc) in
+      wlookup i w2 = Some (loc, fresh_conn scfg loc) /\ b2 = b1 /\
+      o = Some (mk_out OK WDone false 0).
+Proof. exact fresh_after_any_history. Qed.
+Print Assumptions C05_fresh_after_any_history.
+
+(* ... in which STARTTLS is accepted exactly when the configuration enables
+   TLS (and then stops being offered on this connection only), *)
+Theorem C05_fresh_starttls :
+  forall (B : Type) (bk : B -> bcall -> answer * B) (scfg : config) (loc : bool) (b : B),
+    let '(c', b', o) := conn_step B bk cmd_table (conn_cfg scfg loc) (fresh_conn scfg loc) b
+                                  (CCmd "STARTTLS" ANone) in
+    b' = b /\
+    (cf_tls scfg = true ->
+       o_cond o = OK /\ c_starttls c' = false /\ c_mechs c' = true /\ c_phase c' = NotAuth) /\
+    (cf_tls scfg = false -> o_cond o = NO /\ o_why o = WCannot /\ c' = fresh_conn scfg loc).
+Proof. exact fresh_starttls. Qed.
+Print Assumptions C05_fresh_starttls.
+
+(* ... and LOGIN from a non-local peer is refused as LOGINDISABLED exactly
+   until this connection's own STARTTLS. *)
+Theorem C05_fresh_login_disabled :
+  forall (B : Type) (bk : B -> bcall -> answer * B) (scfg : config) (b : B) (u p : bytes),
+    cf_tls scfg = true ->
+    let '(c', b', o) := conn_step B bk cmd_table (conn_cfg scfg false) (fresh_conn scfg false) b
+                                  (CCmd "LOGIN" (ALogin u p)) in
+    o_cond o = NO /\ o_why o = WCannot /\ b' = b /\ c' = fresh_conn scfg false.
+Proof. exact fresh_login_disabled. Qed.
+Print Assumptions C05_fresh_login_disabled.
+
+(* Non-vacuity: the design in which the initial capability list is one object
+   aliased by the server and all its connections (in-place remove in
+   do_starttls) is a different machine: same events, connection 1's STARTTLS
+   is answered NO there and OK in the product model. *)
+Theorem C05_aliased_capabilities_refuted :
+  map (fun x => (fst x, o_cond (snd x)))
+      (snd (world_run script script_bk cmd_table tls_cfg [] [] starttls_twice))
+    = [(0, OK); (0, OK); (1, OK); (1, OK)]%nat /\
+  map (fun x => (fst x, o_cond (snd x)))
+      (snd (aliased_run script script_bk cmd_table tls_cfg ([], true) [] starttls_twice))
+    = [(0, OK); (0, OK); (1, OK); (1, NO)]%nat.
+Proof. exact aliased_design_refuted. Qed.
+Print Assumptions C05_aliased_capabilities_refuted.
 
 (* The hypotheses are satisfiable: a concrete session against a scripted
    backend — LOGIN, EXAMINE INBOX, CLOSE (read-only: OK, no backend call),
